@@ -14,7 +14,13 @@ package conf
 // op lines
 //   type <T>                                   => ok
 //   load <style> <doc> <doc2|->                => jy=.. jt=.. LJ=.. LY=.. LT=.. RJ=.. RY=.. RT=.. U=.. S=..
-//   munm <optbits> <style> <doc>               => MJB=.. MJR=.. MYB=.. MYR=.. MTB=.. MTR=.. [S=..]
+//   munm <optbits>[r] <style> <doc>            => MJB=.. MJR=.. MYB=.. MYR=.. MTB=.. MTR=.. MX=.. [S=..]
+//        (MX = jsonx.Unmarshal + mapping.NewUnmarshaler("json", opts...).Unmarshal: the meaning of the options spelled out)
+//   mrd <mode> <optbits> <style> <doc>         => JB= JR= YB= YR= TB= TR=   the reader entry points on a reader of behaviour <mode>
+//   fmiss <ext> <env 0/1/2> <api> <missing|dir|empty> => <res>   the error paths of conf.Load / LoadConfig
+//   cv <slot> <y|t> <style> <doc>              => tree=..   one YamlToJson / TomlToJson; the RETURNED slice is kept in <slot>
+//   rd <slot>                                  => held=.. snap=.. raw=same|diff   the kept slice now / when it was returned
+//   pload <workers> <rounds> <style> <doc>..   => J<i>= Y<i>= T<i>= MY<i>= MT<i>= FL<i>= MO<i>= CC=same|diff:.. race=na|0|1
 //        mapping.Unmarshal{Json,Yaml,Toml}{Bytes,Reader} with the options of optbits
 //        (1 WithCanonicalKeyFunc(strings.ToLower), 2 WithStringValues, 4 WithFromArray, 8 WithOpaqueKeys);
 //        S = encoding/json on the JSON rendering (optbits 0 only)
@@ -54,6 +60,7 @@ import (
 	"sync"
 	"testing"
 
+	"github.com/zeromicro/go-zero/core/jsonx"
 	"github.com/zeromicro/go-zero/core/mapping"
 	"github.com/zeromicro/go-zero/internal/encoding"
 	"github.com/zeromicro/go-zero/internal/verifh"
@@ -2333,6 +2340,15 @@ func c17NewStep(t *testing.T) func(op []string) string {
 			} else {
 				out = append(out, "MTB=skip", "MTR=skip")
 			}
+			// MX: what passing options MEANS, spelled out without the entry point: the generic tree, then an unmarshaller
+			// built from exactly these options (the entry points may not take their unmarshaller from anywhere else)
+			out = append(out, "MX="+c17Decode(rt, func(v any) error {
+				var m any
+				if err := jsonx.Unmarshal([]byte(js), &m); err != nil {
+					return err
+				}
+				return mapping.NewUnmarshaler("json", opts...).Unmarshal(m, v)
+			}))
 			if bits == 0 {
 				out = append(out, "S="+c17Decode(rt, func(v any) error { return json.Unmarshal([]byte(js), v) }))
 			}
